@@ -1448,8 +1448,12 @@ private:
                 val = binary::big_to_native<uint64_t>(buf, sizeof(buf));
                 break;
             }
-            default:
-                break;
+            default: // 0x1c..0x1e are reserved, 0x1f carries no argument
+            {
+                ec = cbor_errc::unknown_type;
+                more_ = false;
+                return val;
+            }
         }
         return val;
     }
@@ -1532,6 +1536,12 @@ private:
                             auto x = binary::big_to_native<uint64_t>(buf, sizeof(buf));
                             val = static_cast<int64_t>(-1)- static_cast<int64_t>(x);
                             break;
+                        }
+                    default: // 0x1c..0x1e are reserved, 0x1f carries no argument
+                        {
+                            ec = cbor_errc::unknown_type;
+                            more_ = false;
+                            return val;
                         }
                 }
                 break;
